@@ -22,8 +22,8 @@ type c14 struct{ base }
 type c15 struct{ base }
 
 func init() {
-	core.Register(c14{base{"C14", "fault_enumeration", 500, 15000}})
-	core.Register(c15{base{"C15", "exploration", 400, 12000}})
+	core.Register(c14{base{"C14", "fault_enumeration", 2000, 50000}})
+	core.Register(c15{base{"C15", "exploration", 1600, 40000}})
 }
 
 func (c14) Describe() core.Description {
